@@ -1,3 +1,4 @@
+pub mod float;
 pub mod hashset;
 pub mod iterator;
 pub mod vec;
